@@ -40,8 +40,41 @@ type Ctx struct {
 
 // fault reports a failure of the checker itself (never a verdict) and exits 2.
 func fault(format string, args ...interface{}) {
-	fmt.Printf("CHECKER-FAULT: "+format+"\n", args...)
+	msg := fmt.Sprintf(format, args...)
+	if strings.HasPrefix(msg, "unresolved anchor") && currentProp != "" {
+		anchorGone(msg)
+	}
+	fmt.Printf("CHECKER-FAULT: %s\n", msg)
 	os.Exit(2)
+}
+
+// currentProp is the property being decided (set by main before the check runs).
+var currentProp string
+
+// anchorGone: a function, method, type or variable the property is anchored in
+// no longer exists under any name the resolver accepts. Every anchor resolves
+// on the reference tree, so this is a change to the mechanism itself; the
+// property cannot be decided on this tree and, like every undecided
+// obligation, that is a failure of the check (exit 1), reported with the
+// anchor's name rather than as a fault of the checker.
+func anchorGone(msg string) {
+	evDir := filepath.Join(verifDir(), "evidence")
+	if d := os.Getenv("ZLV_EVDIR"); d != "" {
+		evDir = d
+	}
+	violDir := filepath.Join(evDir, currentProp+".violations")
+	_ = os.RemoveAll(violDir)
+	_ = os.MkdirAll(violDir, 0o755)
+	p := filepath.Join(violDir, "1.json")
+	b, _ := json.MarshalIndent(map[string]interface{}{
+		"property": currentProp, "kind": "undecided", "rule": "anchor", "key": "anchor|" + msg,
+		"detail": msg + " — the code the property's mechanism lives in was removed or renamed beyond what the resolver follows (function ↔ method of the same name in the same package is followed); the property cannot be decided on this tree",
+		"repo":   repoDir(),
+	}, "", " ")
+	_ = os.WriteFile(p, b, 0o644)
+	fmt.Printf("[anchor] %s (undecided)\n", msg)
+	fmt.Printf("VIOLATION property=%s replay=%s\n", currentProp, p)
+	os.Exit(1)
 }
 
 func repoDir() string {
@@ -185,13 +218,53 @@ func (c *Ctx) FuncMaybe(rel, name string) *ssa.Function {
 	if sp == nil {
 		return nil
 	}
-	return sp.Func(name)
+	if f := sp.Func(name); f != nil {
+		return f
+	}
+	// the function may have become a method (or moved onto another receiver):
+	// accept the unique method of that name declared in the package
+	return uniqueMethodNamed(c, p, name)
+}
+
+// uniqueMethodNamed: the only method called name declared on any named type of p.
+func uniqueMethodNamed(c *Ctx, p *packages.Package, name string) *ssa.Function {
+	var found []*ssa.Function
+	sc := p.Types.Scope()
+	for _, n := range sc.Names() {
+		tn, ok := sc.Lookup(n).(*types.TypeName)
+		if !ok || tn.IsAlias() {
+			continue
+		}
+		named, ok := tn.Type().(*types.Named)
+		if !ok {
+			continue
+		}
+		for i := 0; i < named.NumMethods(); i++ {
+			if m := named.Method(i); m.Name() == name {
+				if f := c.Prog.FuncValue(m); f != nil {
+					found = append(found, f)
+				}
+			}
+		}
+	}
+	if len(found) == 1 {
+		return found[0]
+	}
+	return nil
 }
 
 // Method returns the method recv.name (pointer or value receiver) of a named
 // type declared in a module package.
 func (c *Ctx) Method(rel, recv, name string) *ssa.Function {
 	f := c.MethodMaybe(rel, recv, name)
+	if f == nil {
+		// the method may have become a package-level function of the same name
+		if p := c.PkgMaybe(rel); p != nil {
+			if sp := c.Prog.Package(p.Types); sp != nil {
+				f = sp.Func(name)
+			}
+		}
+	}
 	if f == nil {
 		fault("unresolved anchor: method %s.(%s).%s", rel, recv, name)
 	}
